@@ -85,7 +85,11 @@ def _emap(f, *args):
     out = _np.frompyfunc(f, len(args), 1)(*arrs)
     if isinstance(out, _np.ndarray):
         return out
-    return out
+    # all array arguments were 0-d: numpy would return a numpy scalar here; keep array-ness so that
+    # later comparisons / masks behave as they do on numpy scalars
+    wrapped = _np.empty((), dtype=object)
+    wrapped[()] = out
+    return wrapped
 
 
 def _unary(name, real_name=None):
